@@ -336,6 +336,42 @@ def gen_quadspline(rnd, mag, kind):
     if kind == "degenerate":
         p = P()
         return [p] * (n_off + 2)
+    if kind == "uneven_cubic":
+        # quadratics of very different lengths that all approximate one smooth cubic
+        # (pieces at uneven parameters): merge candidates are feasible and the long last
+        # piece carries most of the error
+        c = gen_cubic(rnd, rnd.choice(["smooth_arc", "axis", "inflection"]), mag)
+        ts = [0.0]
+        gap = rnd.choice([0.03, 0.06, 0.1])
+        while ts[-1] + gap < 0.9 and len(ts) < 6:
+            ts.append(ts[-1] + gap)
+            gap *= rnd.choice([2.0, 3.0, 4.0])
+        ts.append(1.0)
+        if rnd.random() < 0.5:
+            ts = [1 - t for t in reversed(ts)]
+        pts = [c[0]]
+        for t0, t1 in zip(ts, ts[1:]):
+            pc = BZ.cubic_piece(c, t0, t1)
+            a = (pc[0][0] + (pc[1][0] - pc[0][0]) * 1.5, pc[0][1] + (pc[1][1] - pc[0][1]) * 1.5)
+            b = (pc[3][0] + (pc[2][0] - pc[3][0]) * 1.5, pc[3][1] + (pc[2][1] - pc[3][1]) * 1.5)
+            pts.append(((a[0] + b[0]) / 2, (a[1] + b[1]) / 2))
+            pts.append(pc[3])
+        if mag >= 100:
+            pts = [(float(round(x)), float(round(y))) for x, y in pts]
+        return ("chain", pts)
+    if kind == "uneven":
+        # smooth-ish spline whose segments grow geometrically: a long last quadratic after short ones
+        x, y = 0.0, 0.0
+        ang = rnd.uniform(0, 6.28)
+        step = mag * 0.01
+        pts = [(x, y)]
+        for _k in range(n_off + 1):
+            ang += rnd.uniform(-0.35, 0.35)
+            x += step * math.cos(ang)
+            y += step * math.sin(ang)
+            pts.append((float(round(x)), float(round(y))) if mag >= 100 else (x, y))
+            step *= rnd.choice([1.5, 2.5, 4.0])
+        return pts
     raise ValueError(kind)
 
 
@@ -357,7 +393,7 @@ def cases(tier, seed):
     for fam in ["generic", "inflection", "smooth_arc", "cusp", "axis", "collinear", "elevated"]:
         for mag in (1.0, 1e3):
             add("multi", family=fam, mag=mag, n=200 if T else 60)
-    for kind in ["random", "from_cubic", "integer", "collinear", "degenerate"]:
+    for kind in ["random", "from_cubic", "integer", "collinear", "degenerate", "uneven", "uneven_cubic"]:
         for mag in (1.0, 1e3, 1e5):
             add("reverse", skind=kind, mag=mag, n=500 if T else 150)
     for part in range(8 if T else 3):
@@ -436,6 +472,12 @@ def drv_reverse(case, rnd, ctx):
         nsp = rnd.randrange(1, 5)
         splines = []
         last = None
+        chain = None
+        if case["skind"] == "uneven_cubic":
+            chain = gen_quadspline(rnd, case["mag"], "uneven_cubic")[1]
+            nsp = 0
+            for k in range(0, len(chain) - 2, 2):
+                splines.append([chain[k], chain[k + 1], chain[k + 2]])
         for _ in range(nsp):
             sp = gen_quadspline(rnd, case["mag"], case["skind"])
             if last is not None:
@@ -445,6 +487,8 @@ def drv_reverse(case, rnd, ctx):
             splines.append(sp)
             last = sp[-1]
         tol = rnd.choice([1e-3, 0.1, 0.5, 1.0, 10.0, case["mag"] * 0.01, case["mag"]])
+        if chain is not None:
+            tol = rnd.choice([0.5, 1.0, 2.0, 3.0, 5.0]) * case["mag"] / 1000.0
         allc = rnd.random() < 0.4
         try:
             r = quadratic_to_curves(splines, tol, allc)
@@ -578,6 +622,16 @@ class _Glyph:
         return PointToSegmentPen(self.getPen())
 
 
+def _segs_of(rec):
+    """pen record -> list of control-point tuples (independent canonical form)."""
+    from vmon.oracle import geom
+    out = []
+    for c in geom.canon(rec):
+        for sg in c["segs"]:
+            out.append(tuple(sg[1:]))
+    return out
+
+
 def drv_glyphs(case, rnd, ctx):
     from fontTools.cu2qu.ufo import glyphs_to_quadratic
     from fontTools.cu2qu.errors import Error as Cu2QuError
@@ -586,26 +640,64 @@ def drv_glyphs(case, rnd, ctx):
         rec = _random_contours(rnd, mag, closed=True, super_bezier=False)
         m = rnd.randrange(2, 5)
         amp = mag * 0.04
-        glyphs = [_Glyph(rec)] + [_Glyph([(op, tuple((float(round(x + rnd.uniform(-amp, amp))), float(round(y + rnd.uniform(-amp, amp)))) for x, y in args))
-                                          for op, args in rec]) for _ in range(m - 1)]
+        recs = [rec] + [[(op, tuple((float(round(x + rnd.uniform(-amp, amp))), float(round(y + rnd.uniform(-amp, amp)))) for x, y in args))
+                         for op, args in rec] for _ in range(m - 1)]
+        # empty glyphs (sparse masters) in any position are legal and are passed through
+        empties = set()
+        if rnd.random() < 0.4:
+            for k in range(m):
+                if rnd.random() < 0.4:
+                    empties.add(k)
+            if len(empties) == m:
+                empties.discard(rnd.randrange(m))
+        glyphs = [_Glyph([] if k in empties else recs[k]) for k in range(m)]
         before = [list(g.rec) for g in glyphs]
+        if rnd.random() < 0.5:
+            tols = [rnd.choice([0.5, 1.0, 3.0, 8.0]) for _ in range(m)]   # one tolerance per master
+            kw = {"max_err": list(tols)}
+        else:
+            t = rnd.choice([0.5, 1.0, 3.0])
+            tols = [t] * m
+            kw = {"max_err": t}
         try:
-            glyphs_to_quadratic(glyphs, max_err=rnd.choice([0.5, 1.0, 3.0]), reverse_direction=rnd.random() < 0.3)
+            glyphs_to_quadratic(glyphs, reverse_direction=rnd.random() < 0.3, **kw)
         except Cu2QuError:
             ctx.skip("cu2qu error (incompatible or no approximation)")
             continue
         ctx.judged()
-        structs = {tuple(_structure(g.rec)) for g in glyphs}
+        live = [k for k in range(m) if k not in empties]
+        structs = {tuple(_structure(glyphs[k].rec)) for k in live}
         if len(structs) != 1:
             ctx.violation({"kind": "curve", "func": "glyphs_to_quadratic", "what": "masters converted together have different structures"},
-                          "glyphs_to_quadratic outputs differ in structure", {"input": before[0], "structures": [list(s) for s in structs][:3]})
-        elif any(op == "curveTo" for g in glyphs for op, _ in g.rec):
+                          "glyphs_to_quadratic outputs differ in structure", {"input": before[live[0]], "structures": [list(s) for s in structs][:3]})
+            continue
+        if any(op == "curveTo" for k in live for op, _ in glyphs[k].rec):
             ctx.violation({"kind": "curve", "func": "glyphs_to_quadratic", "what": "cubic segment left in all-quadratic output"},
-                          "glyphs_to_quadratic left a curveTo", {"input": before[0]})
-        else:
-            ctx.nontrivial("glyphs_to_quadratic/m%d/ops%d" % (m, min(len(rec), 12)))
+                          "glyphs_to_quadratic left a curveTo", {"input": before[live[0]]})
+            continue
+        bad = False
+        for k in range(m):
+            if k in empties:
+                if glyphs[k].rec:
+                    ctx.violation({"kind": "curve", "func": "glyphs_to_quadratic", "what": "empty glyph was modified"},
+                                  "glyphs_to_quadratic changed an empty master glyph", {"master": k})
+                    bad = True
+                continue
+            # every master within ITS OWN tolerance of its input outline (parameter-free distance)
+            ctx.judged()
+            a, b = _segs_of(before[k]), _segs_of(glyphs[k].rec)
+            if a and b:
+                exceeds, measured, allow = BZ.hausdorff_exceeds(a, b, tols[k], mag)
+                if exceeds:
+                    ctx.violation({"kind": "curve", "func": "glyphs_to_quadratic", "what": "a master leaves the tolerance neighbourhood of its input outline"},
+                                  "glyphs_to_quadratic: master %d deviates %.3f with tolerance %s" % (k, measured, tols[k]),
+                                  {"master": k, "tolerances": tols, "empty_masters": sorted(empties), "input": before[k][:8], "measured_lower_bound": measured})
+                    bad = True
+        if not bad:
+            ctx.nontrivial("glyphs_to_quadratic/m%d/ops%d/empty%d/pertol%d" % (m, min(len(rec), 12), len(empties), int("max_err" in kw and isinstance(kw["max_err"], list))))
         if i == 0:
-            ctx.sample = {"glyph_input": before[0][:6], "masters": m, "output_ops": [op for op, _ in glyphs[0].rec][:12]}
+            ctx.sample = {"glyph_input": before[live[0]][:6], "masters": m, "empty_masters": sorted(empties), "tolerances": tols,
+                          "output_ops": [op for op, _ in glyphs[live[0]].rec][:12]}
 
 
 def drv_stored(case, rnd, ctx):
